@@ -139,9 +139,12 @@ QFlat2(u) == { x \in QFlat(u) : MaxTerm(x) <= 2 }
 QDisj2(u) == { x \in QDisj(u) : MaxTerm(x) <= 2 }
 QDisjCore(u) == { x \in QCore2(u) : x.type = "disj" } \cup { Disj(<< T(1), T(2), T(1) >>, m) : m \in 1..3 }
 
-\* --- the two shapes with open findings (checked in configurations of their own)
+\* --- the shapes of the findings (checked in configurations of their own)
 \* Q2: BooleanSearcher.Advance as the very first call, must + should(min >= 1):
-\*     initSearchers has moved the should searcher past the target's match.
+\*     initSearchers has moved the should searcher past the target's match, and
+\*     the code as found re-advanced it unconditionally (repaired in b5b6d7b:
+\*     FixBoolAdvance = TRUE; configuration c08_asfound_q2 keeps the old
+\*     behaviour as a regression detector).
 RECURSIVE HasMustShouldMin(_)
 HasMustShouldMin(x) ==
     \/ (x.type = "boolean" /\ Len(x.must) > 0 /\ Len(x.should) > 0 /\ x.min >= 1)
@@ -158,6 +161,11 @@ FirstAdvNoQ2(x)   == ~HasMustShouldMin(x)
 
 QK1(u) == { x \in QBool(u) : HasK1(x) /\ MaxTerm(x) <= 2 }
 QQ2(u) == { x \in I2(T(1), T(2)) : HasMustShouldMin(x) }
+          \cup { Bool(<< T(1) >>, << T(2), T(1) >>, m, << >>, << >>) : m \in 1..2 }
+          \cup { Bool(<< T(1) >>, << T(2) >>, 1, << >>, << T(1) >>),        \* a filter hands Advance down as first call
+                 Bool(<< T(1) >>, << T(2) >>, 1, << T(2) >>, << >>),
+                 Conj(<< Bool(<< T(1) >>, << T(2) >>, 1, << >>, << >>) >>),
+                 Disj(<< Bool(<< T(1) >>, << T(2) >>, 1, << >>, << >>), T(2) >>, 1) }
 
 \* --- selection by the configuration
 CONSTANTS Family,   \* name of the family
